@@ -50,10 +50,12 @@ def check_state(ctx, st, rep, where):
     if not all(math.isfinite(fl(st[k])) for k in ("phi", "theta", "omega", "lambda", "waist")) or not all(math.isfinite(fl(x)) for x in st["dir"]):
         ctx.violation("S5", f"beam state is not finite after {where}", {"kind": "state_not_finite"}, rep)
         return False
-    if not (0 <= hp.D(phi) <= hp.TWO_PI):
+    # the intervals are read in binary64: 2 pi and pi are the doubles TAU and PI.  The correct code never returns -PI (a
+    # remainder above PI minus TAU is strictly above -PI), so theta = -PI means the half-open end is on the wrong side.
+    if not (0.0 <= fl(st["phi"]) <= 2 * math.pi):
         ctx.violation("S5", f"azimuth {float(phi)!r} outside [0, 2 pi] after {where}", {"kind": "phi_range"}, rep)
         ok = False
-    if not (-hp.PI < hp.D(th) <= hp.PI):
+    if not (-math.pi < fl(st["theta"]) <= math.pi):
         ctx.violation("S5", f"polar angle {float(th)!r} outside (-pi, pi] after {where}", {"kind": "theta_range"}, rep)
         ok = False
     sp, cp = hp.sin_cos(phi)
@@ -254,12 +256,13 @@ def check_units(ctx, obs):
         ctx.seen(("norm", o["x"]))
         x, u, s = frac_of_hex(o["x"]), frac_of_hex(o["u"]), frac_of_hex(o["s"])
         rep = {"x": float(x), "normalize_angle": float(u), "normalize_angle_signed": float(s)}
-        if not (0 <= hp.D(u) <= hp.TWO_PI) or not (-hp.PI < hp.D(s) <= hp.PI):
+        if not (0.0 <= float(u) <= 2 * math.pi) or not (-math.pi < float(s) <= math.pi):
             ctx.violation("S5", f"normalize_angle({float(x)!r}) = {float(u)!r} / signed {float(s)!r} out of range", {"kind": "normalize_range"}, rep)
         tol = angle_tol(float(x))
         if tol < 1 and (mod_2pi_diff(u, x) > tol or mod_2pi_diff(s, x) > tol):
             ctx.violation("S5", f"normalize_angle({float(x)!r}) is not congruent to its argument modulo 2 pi", {"kind": "normalize_congruent"}, rep)
     waists = [o for o in obs if o["kind"] == "waist"]
+    bad_waist = []
     for o in waists:
         ctx.count("waist")
         ctx.seen(("waist", o["id"], o["pol"], o["ct"], o["cp"], o["len"], o["lambda"]))
@@ -269,8 +272,13 @@ def check_units(ctx, obs):
             ctx.violation("S5", f"{o['id']}: optimal_waist_position / index along z not available ({rep['z']}, {rep['n_z']})", {"kind": "waist_position_undefined"}, rep)
             continue
         want = -hp.D(frac_of_hex(o["len"])) / (2 * hp.D(frac_of_hex(o["nz"])))
-        if rel_err(frac_of_hex(o["z"]), want) > 1e-15:
-            ctx.violation("S5", f"{o['id']}: optimal_waist_position {fl(o['z'])!r} is not -L/(2 n_z) = {float(want)!r}", {"kind": "waist_position"}, rep)
+        e = rel_err(frac_of_hex(o["z"]), want)
+        if e > 1e-15:
+            bad_waist.append((e, o, rep, float(want)))
+    if bad_waist:
+        e, o, rep, want = max(bad_waist, key=lambda t: t[0])     # report the clearest of them
+        ctx.violation("S5", f"{o['id']} ({o['pol']}, crystal theta {fl(o['ct'])!r}): optimal_waist_position {fl(o['z'])!r} is not -L/(2 n_z) = {want!r} "
+                      f"with n_z = index_along(z) = {fl(o['nz'])!r} (relative error {e:.2e}; {len(bad_waist)} of {len(waists)} set-ups)", {"kind": "waist_position"}, rep)
     return units, waists
 
 
@@ -390,6 +398,11 @@ def correspondence(ctx, steps, snells, units, waists, obs, budget):
         res2 = run_interval_cases(ctx, "C13r", IMPORTS, failed, shards=min(8, max(1, len(failed) // 4)), timeout=1500)
         ctx.cov["obligations"], ctx.cov["discharged"] = before[0], before[1] + sum(1 for v in res2.values() if v)
         res.update(res2)
+    if len(goals) >= 5 and not any(res.values()):
+        # nothing at all could be evaluated: the proof files the case tactics import do not compile (already reported by S3)
+        ctx.note("correspondence cases could not be evaluated: their imports do not compile")
+        ctx.proof_failures.append(("Cases/C13", "imports", "no correspondence goal could be evaluated (the proof files they import are broken)"))
+        return
     for cid, ok in res.items():
         if ok or cid not in meta:
             continue
